@@ -158,7 +158,7 @@ func UnsafePermute(pattern []int, xs ...[]int) (err error) {
 	// and that there are no axis repeated
 	seen := make(map[int]struct{})
 	for _, a := range pattern {
-		if a >= dims {
+		if a >= dims || a < 0 {
 			err = errors.Errorf(invalidAxis, a, dims)
 			return
 		}
@@ -354,7 +354,7 @@ func Permute(pattern []int, xs ...[]int) (retVal [][]int, err error) {
 	// and that there are no axis repeated
 	seen := make(map[int]struct{})
 	for _, a := range pattern {
-		if a >= dims {
+		if a >= dims || a < 0 {
 			err = errors.Errorf(invalidAxis, a, dims)
 			return
 		}
